@@ -356,8 +356,8 @@ class Interp:
             self.assign(st.target, self.ev(st.value))
         elif isinstance(st, ast.Expr):
             v = st.value
-            if isinstance(v, ast.Constant):
-                return  # docstring
+            if isinstance(v, (ast.Constant, ast.JoinedStr)):
+                return  # docstring / dangling string expression
             if isinstance(v, ast.Call):
                 d = ast.unparse(v.func)
                 if d.startswith(("logger.", "logging.", "warnings.")):
